@@ -488,6 +488,27 @@ func (vc *FnVC) binop(in *ssa.BinOp) {
 			vc.define(in, fmt.Sprintf("(%s %s %s)", in.Op.String(), x.S, y.S))
 			return
 		}
+		if isFloat && x.Sort == "Int" && y.Sort == "Int" {
+			// floats are opaque values (integral constants keep their value); comparisons are
+			// deterministic uninterpreted relations, with x < x and x > x false
+			vc.decl("flt$lt", "(declare-fun flt$lt (Int Int) Bool)")
+			vc.decl("flt$le", "(declare-fun flt$le (Int Int) Bool)")
+			vc.declAxiom("flt$ax", "(assert (forall ((a Int)) (! (not (flt$lt a a)) :pattern ((flt$lt a a)))))")
+			var e string
+			switch in.Op {
+			case token.LSS:
+				e = fmt.Sprintf("(flt$lt %s %s)", x.S, y.S)
+			case token.GTR:
+				e = fmt.Sprintf("(flt$lt %s %s)", y.S, x.S)
+			case token.LEQ:
+				e = fmt.Sprintf("(flt$le %s %s)", x.S, y.S)
+			case token.GEQ:
+				e = fmt.Sprintf("(flt$le %s %s)", y.S, x.S)
+			}
+			vc.define(in, e)
+			vc.assume("floating point values are opaque; only determinism of comparisons and irreflexivity of < are used")
+			return
+		}
 		if isString {
 			vc.decl("strlt", "(declare-fun strlt (Int Int) Bool)")
 			vc.declAxiom("strlt$ax","(assert (forall ((a Int) (b Int)) (! (and (not (and (strlt a b) (strlt b a))) (or (strlt a b) (strlt b a) (= a b))) :pattern ((strlt a b)))))")
